@@ -50,3 +50,44 @@ package kvql
 //@   ensures[C11] done: p.executed
 //@   ensures[C11] drained: !old(p.executed) && err == nil ==> pcur(p.ChildPlan) == plen(p.ChildPlan) && ndelkeys == old(ndelkeys) + pcur(p.ChildPlan) - old(pcur(p.ChildPlan))
 //@   ensures[C13] surfaced: !old(p.executed) && failed ==> err == lastErr
+//
+// ---------------------------------------------------------------- building the DELETE plan (optimizer.go)
+//
+//@ func (o *Optimizer) buildScanPlan(s Storage) (plan Plan)
+//@   props C11 C02
+//@   ghost k B, v B
+//@   requires o != nil && wfFilter(o.filter)
+//@   assigns nothing
+//@   ensures nonnil: plan != nil && fresh(plan)
+//@   ensures[C02] covers: holds(o.filter.Ast.Expr, k, v) ==> planCovers(plan, k)
+//@   ensures[C11] exact: !hasAnd(o.filter.Ast.Expr) && is(plan, *MultiGetPlan) && planCovers(plan, k) ==> holds(o.filter.Ast.Expr, k, v)
+//@   ensures[C11] filter: is(plan, *MultiGetPlan) ==> as(plan, *MultiGetPlan).Filter == o.filter
+//@   ensures[C18] kinds: (is(plan, *EmptyResultPlan) || is(plan, *MultiGetPlan) || is(plan, *PrefixScanPlan) || is(plan, *RangeScanPlan) || is(plan, *FullScanPlan))
+//
+//@ func (o *Optimizer) optimizeDeletePlanToRemovePlan(s Storage, mgPlan *MultiGetPlan) (plan FinalPlan, err error)
+//@   props C11
+//@   requires mgPlan != nil
+//@   assigns nothing
+//@   ensures[C11] kind: err == nil && is(plan, *RemovePlan) && as(plan, *RemovePlan).Storage == s && !as(plan, *RemovePlan).executed && len(as(plan, *RemovePlan).Keys) == len(mgPlan.Keys)
+//@   ensures[C11] literal: forall i Int :: 0 <= i && i < len(as(plan, *RemovePlan).Keys) ==> as(plan, *RemovePlan).Keys[i] != nil && isStr(as(plan, *RemovePlan).Keys[i]) && strOf(as(plan, *RemovePlan).Keys[i]) == val(mgPlan.Keys[i])
+//@   loop 0 (key)
+//@     invariant shape: len(keys) == len(mgPlan.Keys) && ptr(keys) != ptr(mgPlan.Keys)
+//@     invariant lit: forall i Int :: 0 <= i && i <= rangeindex ==> keys[i] != nil && isStr(keys[i]) && strOf(keys[i]) == val(mgPlan.Keys[i])
+//
+// The shortcut (REMOVE of the literal key set) is taken only without LIMIT and without an AND
+// in the filter; the removed keys are, position by position, the keys of the point-read plan
+// built for the filter, and every such key satisfies the filter whatever its value (exact).
+//@ func (o *Optimizer) buildDeletePlan(s Storage, stmt *DeleteStmt) (plan FinalPlan, err error)
+//@   props C11 C13
+//@   ghost k B, v B
+//@   requires o != nil && wfFilter(o.filter) && wfx(o.filter.Ast.Expr) && stmt != nil && s != nil && !failed
+//@   requires stmt.Limit != nil ==> stmt.Limit.Start >= 0 && stmt.Limit.Count >= 0
+//@   assigns walkFlag, nops, failed, lastErr, allof(pcur)
+//@   ensures[C11] shortcut: err == nil && is(plan, *RemovePlan) ==> stmt.Limit == nil && !hasAnd(o.filter.Ast.Expr) && is(local(fp), *MultiGetPlan)
+//@   ensures[C11] samekeys: err == nil && is(plan, *RemovePlan) ==> len(as(plan, *RemovePlan).Keys) == len(as(local(fp), *MultiGetPlan).Keys) && (forall i Int :: 0 <= i && i < len(as(plan, *RemovePlan).Keys) ==> isStr(as(plan, *RemovePlan).Keys[i]) && strOf(as(plan, *RemovePlan).Keys[i]) == val(as(local(fp), *MultiGetPlan).Keys[i]))
+//@   ensures[C11] exact: err == nil && is(plan, *RemovePlan) ==> (planCovers(local(fp), k) ==> holds(o.filter.Ast.Expr, k, v)) && (holds(o.filter.Ast.Expr, k, v) ==> planCovers(local(fp), k))
+//@   ensures[C11] kinds: err == nil ==> is(plan, *RemovePlan) || is(plan, *DeletePlan)
+//@   ensures[C11] scan: err == nil && is(plan, *DeletePlan) ==> as(plan, *DeletePlan).Storage == s && !as(plan, *DeletePlan).executed && as(plan, *DeletePlan).ChildPlan != nil
+//@   ensures[C11] limited: err == nil && is(plan, *DeletePlan) && !is(as(plan, *DeletePlan).ChildPlan, *EmptyResultPlan) ==> ite(stmt.Limit != nil, is(as(plan, *DeletePlan).ChildPlan, *LimitPlan) && as(as(plan, *DeletePlan).ChildPlan, *LimitPlan).Start == stmt.Limit.Start && as(as(plan, *DeletePlan).ChildPlan, *LimitPlan).Count == stmt.Limit.Count && as(as(plan, *DeletePlan).ChildPlan, *LimitPlan).ChildPlan != nil && (holds(o.filter.Ast.Expr, k, v) ==> planCovers(as(as(plan, *DeletePlan).ChildPlan, *LimitPlan).ChildPlan, k)), holds(o.filter.Ast.Expr, k, v) ==> planCovers(as(plan, *DeletePlan).ChildPlan, k))
+//@   ensures[C11] empty: err == nil && is(plan, *DeletePlan) && is(as(plan, *DeletePlan).ChildPlan, *EmptyResultPlan) ==> !holds(o.filter.Ast.Expr, k, v)
+//@   ensures[C13] surfaced: failed ==> err == lastErr
